@@ -136,6 +136,12 @@ func c19PoolOK(p *x509.CertPool, label string) {
 
 func verifHarness_C19_server() {
 	c := c19Config()
+	// a cluster connection builds its client-side configs before its server-side ones, possibly from
+	// the very same tls block: what was built before must not influence this config
+	if verifChoose("client-config-built-first", 2) == 1 {
+		_, _ = GetClientTLSConfig(c)
+		verifReach("client-config-built-first")
+	}
 	cfg, err := GetServerTLSConfig(c, log.NewNoopLogger())
 	if !c.IsEnabled() {
 		verifAssert(cfg == nil && err == nil, "server:tls-disabled-yields-no-config")
@@ -160,6 +166,10 @@ func verifHarness_C19_server() {
 
 func verifHarness_C19_client() {
 	c := c19Config()
+	if verifChoose("server-config-built-first", 2) == 1 {
+		_, _ = GetServerTLSConfig(c, log.NewNoopLogger())
+		verifReach("server-config-built-first")
+	}
 	cfg, err := GetClientTLSConfig(c)
 	if !c.IsEnabled() {
 		verifAssert(cfg == nil && err == nil, "client:tls-disabled-yields-no-config")
